@@ -268,6 +268,25 @@ Definition is_blocking_pull (ts : list str) : option (str * str) :=
   | _ => None
   end.
 
+(* token lists split at a separator token *)
+Fixpoint split_on_tok (sep : str) (ts : list str) : list (list str) :=
+  match ts with
+  | [] => [[]]
+  | t :: ts' =>
+      if str_eqb t sep then [] :: split_on_tok sep ts'
+      else match split_on_tok sep ts' with
+           | [] => [[t]]
+           | w :: ws => (t :: w) :: ws
+           end
+  end.
+
+Fixpoint intersperse (sep : str) (l : list str) : list str :=
+  match l with
+  | [] => []
+  | [x] => [x]
+  | x :: l' => x :: sep :: intersperse sep l'
+  end.
+
 (* ---------- push mode ---------- *)
 Definition ep_prefix : str := Eval vm_compute in bytes_of_string "http://ep/e"%string.
 Definition refused_ep : str := Eval vm_compute in bytes_of_string "http://refused/"%string.
@@ -339,6 +358,21 @@ Fixpoint dedup_sorted (l : list N) : list N :=
 Definition sorted_registry (sv : server) : list (name * str) :=
   isort (fun a b => str_ltb (show_sub_name (fst a)) (show_sub_name (fst b))) (sv_reg sv).
 
+Definition run_seq_parts (sv : server) (seen : list N) (acks : list str) (args : list str)
+  : server * list N * list str * str :=
+  let parts := split_on_tok [59; 59] args in
+  let '(sv', seen', acks', outs) :=
+    fold_left (fun (acc : server * list N * list str * list str) part =>
+                 let '(s0, sn0, ak0, o0) := acc in
+                 match parse_op part with
+                 | None => (s0, sn0, ak0, o0 ++ [[63]])
+                 | Some r =>
+                     let (s1, p) := api_step s0 r in
+                     let (line, sn1) := render sn0 r p in
+                     (s1, sn1, ak0 ++ resp_acks p, o0 ++ [line])
+                 end) parts (sv, seen, acks, []) in
+  (sv', seen', acks', join_sp (kw "SEQ" :: intersperse [59; 59] outs)).
+
 Fixpoint run_lines (sv : server) (seen : list N) (acks : list str) (bg : list (N * str)) (eps : list (N * list outcome))
                    (lines : list (list str)) : list str :=
   match lines with
@@ -351,6 +385,10 @@ Fixpoint run_lines (sv : server) (seen : list N) (acks : list str) (bg : list (N
           if is_kw "SEED" op then kw "SEED" :: run_lines sv seen acks bg eps rest
           else if is_kw "Q" op then kw "Q" :: run_lines sv seen acks bg eps rest
           else if is_kw "YIELD" op then kw "YIELD" :: run_lines sv seen acks bg eps rest
+          else if is_kw "SEQ" op then
+            (* "SEQ <op> ;; <op> ..." : the ops one after the other, reported on one line *)
+            let '(sv', seen', acks', line) := run_seq_parts sv seen acks args in
+            line :: run_lines sv' seen' acks' bg eps rest
           else if is_kw "MODE" op then kw "MODE" :: run_lines sv seen acks bg eps rest
           else if is_kw "EP" op then
             match args with
@@ -398,6 +436,10 @@ Fixpoint run_lines (sv : server) (seen : list N) (acks : list str) (bg : list (N
                         | _, _ => [63] :: run_lines sv seen acks bg eps rest
                         end
                     | None =>
+                        if match inner with t0 :: _ => is_kw "SEQ" t0 | [] => false end then
+                          let '(sv', seen', acks', line) := run_seq_parts sv seen acks (tl inner) in
+                          kw "BG" :: run_lines sv' seen' acks' ((id, line) :: bg) eps rest
+                        else
                         match parse_op inner with
                         | None => [63] :: run_lines sv seen acks bg eps rest
                         | Some r =>
